@@ -364,3 +364,59 @@ class SBytesIO:
 
 
 STD = dict(int=IntShim, bytes=BytesShim)
+
+
+# --------------------------------------------------------------------------------------------- source-level rewriting
+import ast as _ast
+import inspect as _inspect
+import textwrap as _textwrap
+
+
+def symx_join(sep, items):
+    """sep.join(items) that keeps proxies (bytes / str separators)"""
+    items = list(items)
+    if all(isinstance(x, (bytes, bytearray)) for x in items) and isinstance(sep, (bytes, bytearray)):
+        return sep.join(items)
+    if all(isinstance(x, str) for x in items) and isinstance(sep, str):
+        return sep.join(items)
+    if isinstance(sep, (bytes, bytearray)):
+        out = SBytes([])
+        for k, x in enumerate(items):
+            if k and sep:
+                out = out + sep
+            out = out + (x if isinstance(x, SBytes) else SBytes.lift(x))
+        return out.lower_if_concrete()
+    out = SStr([])
+    for k, x in enumerate(items):
+        if k and sep:
+            out = out + sep
+        out = out + x
+    return out.lower_if_concrete()
+
+
+class _JoinRewriter(_ast.NodeTransformer):
+    def visit_Call(self, node):
+        self.generic_visit(node)
+        f = node.func
+        if isinstance(f, _ast.Attribute) and f.attr == 'join' and isinstance(f.value, _ast.Constant) and \
+                isinstance(f.value.value, (bytes, str)) and len(node.args) == 1 and not node.keywords:
+            return _ast.copy_location(_ast.Call(func=_ast.Name(id='__symx_join', ctx=_ast.Load()), args=[f.value, node.args[0]], keywords=[]), node)
+        return node
+
+
+def rewrite_function(owner, name):
+    """Re-compile one function of the analysed library from its CURRENT source with `<literal>.join(x)` replaced by a
+    proxy-aware join (the C-level join cannot take proxies).  The replacement is installed like any other shim and is
+    undone by uninstall_all()/unshimmed()."""
+    raw = owner.__dict__[name] if isinstance(owner, type) else getattr(owner, name)
+    fn = raw.__func__ if isinstance(raw, (classmethod, staticmethod)) else raw
+    src = _textwrap.dedent(_inspect.getsource(fn))
+    tree = _JoinRewriter().visit(_ast.parse(src))
+    _ast.fix_missing_locations(tree)
+    ns = fn.__globals__
+    ns['__symx_join'] = symx_join
+    loc = {}
+    exec(compile(tree, _inspect.getsourcefile(fn) or '<rewritten>', 'exec'), ns, loc)
+    new = loc[fn.__name__]
+    _installed.append((owner, name, raw, new))
+    setattr(owner, name, new)
